@@ -6,12 +6,39 @@ TB = ("Trusted: clang 14 AST, the cxx2c translation rules (mechanical, must-fire
       "the assumed contracts of the std:: models (vector, unordered_map single-slot view, smart pointers as raw pointers, memcpy); "
       "x86-64 LP64 little-endian; no allocation failure, no exceptions, no deallocation. ")
 CLAIMS = {
+ 'C01': ('Simulation argument with machine-checked parts: (1) the real Encoder (putPacket segment loop closed by a loop contract, frame open / emit header / copy slice / close events) refines the ghost monitor M_E for every payload length 1..65535, every max 25..65559, min<=max, every message type: slices are the next payload bytes in order, directly behind their header, every byte once; every serialised header byte is specified (getRawMessageHeader/addNewDataHeader/addNewCMPFrame at the table offsets); (2) Decoder::decode implements the reassembly transition relation delta for arbitrary prior slot state and delivers each complete unsegmented message from wire bytes at the table offsets (Packet(msgType,data,size), create); (3) consistent payloads are returned typed. The induction over events/frames is on paper.', '5 C01',
+         TB + 'The batch loop of encode<It> is covered by lemmas over the contracts (zero iterations, inductive step), not by a loop contract. Simulation between M_E and delta and the induction over the event sequence are meta-level arguments in DESIGN.md.',
+         'CBMC function + loop contracts (DFCC), ghost monitor, lemma harnesses'),
+ 'C02': ('Decoder::decode enforced against a contract for every buffer (NULL or any bytes, size up to 2^31-1) and every prior reassembly slot state: all reads inside the buffer (CBMC pointer obligations in the translated bodies), the buffer is not assignable (frame condition), the message walk terminates (decreases clause), at most one packet per 12 bytes, every delivered packet non-null with payload and freshly allocated storage; message / payload validators proved to accept only buffers whose inner lengths fit.', '5 C02',
+         TB + 'The TECMP branch is under contract separately (tecmp.spec); deallocation is not modelled (no use-after-free results).',
+         'CBMC function + loop contracts (DFCC)'),
+ 'C03': ('Each payload validator is enforced against ret => Valid_T(bytes) (weakest predicate under which every accessor stays inside the buffer, written over raw bytes) and Valid_T & no error flags => ret; every variable-length accessor is enforced under Valid_T: CBMC proves all reads in bounds and the reported pointer/length views inside the payload; Packet::create / Packet(msgType,data,size) are proved to return a typed payload only over bytes satisfying Valid_T, and Packet::isValidPacket <=> message fits.', '5 C03',
+         TB, 'CBMC function contracts (DFCC), proof by cases over the payload kind'),
+ 'C04': ('Layer A: decode\'s loop contract tiles the frame (cursor = 8 + sum(16+len)), each delivery event is asserted to be built from the next message on the wire, inside the frame, with version/device/stream/message type of the frame header; at exit the first undelivered message is cut short, invalid or a segment. Layer B: Packet(msgType,data,size) / create / Payload ctor: timestamp, interface or vendor id, flags, payload length, type and every payload byte equal the big-endian wire fields at the table offsets; inconsistent or error-flagged payloads come back marked invalid.', '5 C04',
+         TB, 'CBMC function + loop contracts (DFCC), ghost monitor at delivery events'),
+ 'C05': ('Per call, for arbitrary slot state: SegmentedPacket constructor keeps exactly 16 + declared bytes of the first segment; addSegment accepts iff same version, same message type, counter = slot counter + 1 modulo 2^16, open slot, continuing segment whose declared bytes lie in the frame; appends exactly the declared bytes (provenance at the ghost index), updates the length field; getPacket builds the packet from the buffer with the first segment\'s version/type; decode\'s delta contract: first segment (re)opens, intermediary appends, last delivers exactly once and closes; the table key equality is identity on (device id, stream id). Interleaving with other endpoints follows from C18\'s frame condition; induction over the segments on paper.', '5 C05',
+         TB, 'CBMC function + loop contracts (DFCC), single-slot map model'),
+ 'C06': ('Safety: an accepted continuation leaves stored bytes unchanged and appends only this frame\'s declared bytes, is accepted only with the slot\'s version, type and next counter; every other frame of the endpoint closes or restarts the slot; delivery only from a slot whose accepted segment is last. Recovery: from ANY slot state a first segment reopens, a rejected segment / unsegmented / invalid message leaves the slot closed. Per-call obligations proved; induction over the faulted stream on paper.', '5 C06',
+         TB, 'CBMC function + loop contracts (DFCC)'),
+ 'C07': ('M_E guards on the real putPacket / addNewCMPFrame / addNewDataHeader / getEncodedData: every message complete inside its frame, >= 1 message per closed frame, frame size = max(used, min) <= max, rest of a new frame zero, each payload byte exactly once and in order (ghost position), empty batch yields no frames and is memory-safe.', '5 C07',
+         TB + 'Layer A abstracts the CONTENTS of the frame buffer (checked: no layer-A clause or function body reads frame bytes); byte-level facts are proved in the leaves\' own harnesses. std::vector<std::vector<uint8_t>> is modelled with one stable buffer for the last frame.',
+         'CBMC function + loop contracts (DFCC), ghost monitor'),
+ 'C08': ('checkIfSegmented returns true iff 16+len > max-8 and leaves an empty open frame for the first segment; emit-event preconditions on addNewDataHeader: message type == frame type, nothing follows a segment, a segment is alone, first/intermediary*/last order, non-last segments fill the frame, fitting packets are not split and are appended whenever they fit; buildSegmentationFlag table; frame header announces the new type after a type change.', '5 C08',
+         TB, 'CBMC function + loop contracts (DFCC), ghost monitor'),
+ 'C09': ('addNewCMPFrame stamps counter+1 mod 2^16 (symbolic uint16, wrap included), the encoder\'s device/stream id, the batch version and the current message type into bytes 0-7 of every new frame; setDeviceId/setStreamId/restart reset the counter; init and getEncodedData keep it; getSequenceCounter returns it; every opened frame is returned.', '5 C09',
+         TB + 'Induction over the history of operations on paper.', 'CBMC function contracts (DFCC)'),
+ 'C10': ('init (start of every encode) and getEncodedData/clearEncodingMetadata establish the canonical per-call state (no frames, no free bytes, no template, no remembered message type); putPacket is proved from exactly that state with symbolic sequence counter; the segmentation decision is a function of (len, max) only.', '5 C10',
+         TB, 'CBMC function contracts (DFCC), lemma harnesses'),
  'C11': ('Every setter/getter of every header class, payload-class forwarder and PayloadType/Packet accessor is enforced (DFCC) against a contract generated from the wire-layout table: for arbitrary prior contents and every in-range value EVERY byte of the object is specified after the call (field bits = value, every other bit/byte/data byte unchanged), getters = big-endian decode of the raw bytes. Loop-free code over full-domain symbolic inputs: complete proof per accessor.', '5 C11',
-         TB + 'The round trip get(set(v))==v follows from the two table expressions being inverse on in-range values (checked by lemma harnesses).',
+         TB + 'The round trip get(set(v))==v follows from the two table expressions being inverse on in-range values.',
          'CBMC function contracts (DFCC) generated from layout tables'),
- 'C12': ('Same harnesses as C11 read in the layout direction: postconditions are stated at the table offsets/masks (written from the protocol layouts, not from the library headers), big-endian; default constructors are proved to produce the table defaults (reserved bytes zero); header sizes are static-asserted.', '5 C12',
+ 'C12': ('Same harnesses as C11 read in the layout direction: postconditions are stated at the table offsets/masks (written from the protocol layouts, not from the library headers), big-endian; payload default constructors are proved to produce zeroed headers of the table size; getRawCmpHeader / getRawMessageHeader serialise every byte as the tables prescribe.', '5 C12',
          TB + 'The layout table itself (specs/layout/wire.tbl) is the oracle and is trusted.',
          'CBMC function contracts (DFCC) generated from layout tables'),
+ 'C17': ('Postconditions of decode on the observed slot: present afterwards iff the last processed message was a first segment or an accepted intermediary; otherwise absent (including the default entry created by operator[] on an orphan segment); null / short / TECMP input performs no map operation (ghost counter); pending bytes = 16 + sum of declared lengths of accepted segments.', '5 C17',
+         TB + 'Single-slot view of std::unordered_map (per-key independence assumed); induction over the history on paper.', 'CBMC function + loop contracts (DFCC), single-slot map model'),
+ 'C18': ('Every map operation in decode is proved to use the key {BE16(frame+2), frame[5]} of the current frame (assertion inside the map model at all call sites, for all inputs); decode\'s assigns clause contains only that slot, the result and fresh memory; key equality is identity on (device id, stream id); TECMP / short / null buffers perform zero map operations.', '5 C18',
+         TB + 'Projection lemma (delta on the projected history = delta on the full history) and induction on paper.', 'CBMC function + loop contracts (DFCC), single-slot map model'),
 }
 ALL = ['C%02d' % i for i in range(1, 21)]
 NA_REASON = {}
